@@ -135,6 +135,11 @@ structure Config where
       C09:whfast-var-keep-com-drift-lost); the repaired source redoes it on the restored
       coordinates.  Detected by rv/c09.py. -/
   vfix : Bool := false
+  /-- source variant of part1: after `from_inertial; recalculate_coordinates_this_timestep = 0` the
+      repaired source (35adc5c) also sets `is_synchronized = 1` — as found, with keep_unsynchronized
+      the flag stayed 0 and a full merged drift was applied to freshly recalculated (synchronised)
+      coordinates.  Detected by rv/c09.py. -/
+  p1fix : Bool := false
   deriving DecidableEq, Repr, Inhabited
 
 /-- internal flags -/
@@ -256,7 +261,7 @@ def part1Ops (c : Config) (f : Flags) : List Prim × Flags :=
           let (ps, fs) := syncOps c f1
           (ps ++ [Prim.warn], fs)
         else ([], f1)
-      (ps ++ [Prim.fromInertial], { fs with recalc := false })
+      (ps ++ [Prim.fromInertial], { fs with recalc := false, isSync := c.p1fix || fs.isSync })
     else ([], f1)
   let drift :=
     if f2.isSync then
@@ -296,7 +301,7 @@ def vPart1Ops (c : Config) (f : Flags) : List Prim × Flags :=
   let (p2, f2) :=
     if c.safe || f1.recalc then
       let (ps, fs) := if !f1.isSync then ((vSyncOps c f1).1 ++ [Prim.warn], (vSyncOps c f1).2) else ([], f1)
-      (ps ++ [Prim.fromInertial], { fs with recalc := false })
+      (ps ++ [Prim.fromInertial], { fs with recalc := false, isSync := c.p1fix || fs.isSync })
     else ([], f1)
   let drift := if f2.isSync then [Prim.kepler (.frac 1 2), .com (.frac 1 2)]
                else [.kepler (.frac 1 1), .com (.frac 1 1)]
@@ -331,6 +336,8 @@ structure SabaConfig where
       `p_jh` taken inside the `is_synchronized == 0` test (repaired, fix 588d1fa) or before it
       (as found: NULL dereference before the first step, finding F19)?  Detected by rv/c09.py. -/
   copyInside : Bool := false
+  /-- source variant of part1 (35adc5c): `is_synchronized = 1` after `from_inertial` (see `Config.p1fix`) -/
+  p1fix : Bool := false
   deriving DecidableEq, Repr, Inhabited
 
 def sabaTypeOk (t : Nat) : Bool :=
@@ -367,7 +374,7 @@ def sabaSyncOps (c : SabaConfig) (f : Flags) : List Prim × Flags :=
 def sabaPart1Ops (c : SabaConfig) (f : Flags) : List Prim × Flags :=
   let row := c.type % 0x100
   let f1 := initF f
-  let (p2, f2) := if c.safe || f1.recalc then ([Prim.fromInertial], { f1 with recalc := false })
+  let (p2, f2) := if c.safe || f1.recalc then ([Prim.fromInertial], { f1 with recalc := false, isSync := c.p1fix || f1.isSync })
                   else ([], f1)
   let drift :=
     if c.type ≥ 0x100 then
